@@ -34,6 +34,10 @@ class State:
         Bind a Convention instance to this Dataset.
         If the Dataset is already bound, an error is raised.
         """
+        if self.is_bound():
+            raise ValueError(
+                "A convention has already been bound to this dataset, "
+                "cannot assign a new convention.")
         self.convention = convention
 
     def is_bound(self) -> bool:
